@@ -1019,6 +1019,14 @@ func (interp *Interpreter) cfg(root *node, sc *scope, importPath, pkgName string
 				n.typ = c0.typ
 			case aShl, aShr:
 				if c0.typ.untyped {
+					if isConstNumber(c0) && c1.rval.IsValid() {
+						// A constant shift of an untyped constant is an untyped integer
+						// constant, whatever the type expected by the context.
+						n.typ = c0.typ
+						if !isInt(c0.typ.TypeOf()) {
+							n.typ = untypedInt(n)
+						}
+					}
 					break
 				}
 				n.typ = c0.typ
@@ -1041,6 +1049,13 @@ func (interp *Interpreter) cfg(root *node, sc *scope, importPath, pkgName string
 				// The result has the type of a typed operand, whatever the type
 				// expected by the context, set at pre-order.
 				switch {
+				case isConstNumber(c0) && isConstNumber(c1):
+					// An operation on untyped constants is an untyped constant, of the
+					// kind of its operands which appears later in integer, rune, float, complex.
+					n.typ = c0.typ
+					if c1.typ.TypeOf().Kind() > c0.typ.TypeOf().Kind() {
+						n.typ = c1.typ
+					}
 				case n.typ == nil || isInterface(n.typ):
 				case !c0.typ.untyped:
 					n.typ = c0.typ
@@ -3481,6 +3496,11 @@ func isBoolAction(n *node) bool {
 		return true
 	}
 	return false
+}
+
+// isConstNumber returns true if node is an untyped numeric constant, possibly folded.
+func isConstNumber(n *node) bool {
+	return n.typ != nil && n.typ.untyped && n.rval.IsValid() && isConstantValue(n.rval.Type()) && isNumber(n.typ.TypeOf())
 }
 
 // isConstString returns true if node is an untyped string constant, possibly folded.
